@@ -1,7 +1,7 @@
 """Texts for MANIFEST.json (kept next to the contracts so that they are updated together)."""
-SOURCE_COMMITS = []
+SOURCE_COMMITS = ['b5b9d97 fix: treat a position already seen more than twice as a repetition draw']
 ENGINES = [
-    {'name': 'verus-contracts', 'path': 'check', 'serves_properties': ['C06'],
+    {'name': 'verus-contracts', 'path': 'check', 'serves_properties': ['C05', 'C06', 'C10', 'C14'],
      'kind_free_text': 'Verus 0.2026.09.13: requires/ensures/invariant/decreases inserted into functions copied byte-for-byte from /repo/src on every run; one verifier process per unit'},
 ]
 NOTES = ('Technique family: contract-based deductive verification of the real code. exit 0 = all obligations discharged; '
@@ -10,7 +10,7 @@ NOTES = ('Technique family: contract-based deductive verification of the real co
 
 PENDING = 'check not yet built in this commit (planned, see DESIGN.md section 4); listed here until its check is registered'
 NOT_APPLICABLE = {
-    'C01': PENDING, 'C02': PENDING, 'C04': PENDING, 'C05': PENDING, 'C09': PENDING, 'C10': PENDING, 'C13': PENDING, 'C14': PENDING, 'C15': PENDING,
+    'C01': PENDING, 'C02': PENDING, 'C04': PENDING, 'C09': PENDING, 'C13': PENDING, 'C15': PENDING,
     'C03': 'two threads, an mpsc channel, a polling loop on the wall clock and stdout: no function-level contract states "exactly one bestmove", Kani has no threads, and get_best_move/alpha_beta_search are outside the Verus subset (closures, sort_unstable_by_key, iterator adaptors); the sequential ingredients are covered by C01/C02/C04',
     'C07': 'needs a contract on the recursive search with ghost clock state; the search body is outside the Verus subset and CBMC cannot unroll it; enumerating expiry points is fault injection, a different family',
     'C08': 'liveness/latency of a two-thread polling loop: no contract over one call expresses "eventually prints within the slice"',
@@ -21,6 +21,24 @@ NOT_APPLICABLE = {
     'C18': 'formatted search output under the clock (send_search_info inside the search): outside both verifiers',
 }
 CHECKS = {
+    'C05': {
+        'text': 'Unbounded proof (work in progress: this commit covers the four BoardState mutators and the hasher getters): each mutator has an exact frame+effect contract in struct-update form and preserves key_ok(b,h) := b.zobrist_key == hash_of(b,h), where hash_of is the from-scratch XOR over the 64 squares, side, four rights and en-passant file, for ANY table contents.',
+        'design_ref': 'DESIGN.md 4/C05',
+        'note': 'Trusted: Verus+Z3+rustc, extractor, two arithmetic axioms. Not decided: from_fen builds the key from scratch (string code outside both verifiers); generator and text-applier key updates are added by the movegen/uci bundles.',
+        'technique': 'Verus contracts: key_ok as a representation invariant preserved by every mutator',
+    },
+    'C10': {
+        'text': 'Unbounded proof for the table operations: new/clear give the empty table, add_board_to_draw_table changes exactly one count by one (frame over all other keys), is_threefold_repetition leaves the table unchanged and answers exactly "already seen at least twice". Over vstd\'s HashMap model.',
+        'design_ref': 'DESIGN.md 4/C10',
+        'note': 'Not decided and said so: the position handler loop in play_out_position (clear/insert/add per move) and the whole search clause (score never below zero) are outside both verifiers; positions are identified with 64-bit keys (collisions not excluded); remove_board_from_draw_table is outside the Verus subset (Some(&val) pattern).',
+        'technique': 'Verus contracts on DrawTable over the vstd HashMap model',
+    },
+    'C14': {
+        'text': 'Unbounded proof: get_evaluation(b) == eval_spec(placement, side) (so it depends on nothing else), and three lemmas over eval_spec for ALL placements: mirrored twin evaluates equal, other side to move negates, |eval| <= 96000 < MATE_SCORE-15. Piece values/phase weights are taken from the function bodies, tables from the real consts, so retuning keeps verifying while asymmetry or overflow does not.',
+        'design_ref': 'DESIGN.md 4/C14',
+        'note': 'Trusted: Verus+Z3+rustc, extractor. The bound is proved for every placement (64 occupied squares), which is more than legal positions need; i32 overflow freedom is proved.',
+        'technique': 'Verus contract get_evaluation == eval_spec + symmetry/negation/bound lemmas',
+    },
     'C06': {
         'text': 'Unbounded proof: for every well-formed 12x12 mailbox with one king per side (cached squares correct) and both colours, is_check returns exactly attacked_by(placement, enemy, king square), where attacked_by is a rules-level spec (sliders stopped by the first piece, pawn diagonals forward only, knights, adjacent king). Discharged by Verus on the function text copied from /repo on every run, with loop invariants and termination; must-fail canaries guard against vacuity.',
         'design_ref': 'DESIGN.md 4/C06, 3.1-3.6',
